@@ -179,7 +179,12 @@ def run_task(spec, complete_at=None, cancel_at=None):
         sibling_spec = dict(spec, throughput=None, op_type="sim-op")
         members = ([build_task(dict(sibling_spec, clients=goff), name="sib-before")] if goff else []) + [task]
         members += [build_task(dict(sibling_spec, clients=rest), name="sib-after")] if rest else []
-        element = track.Parallel(members) if len(members) > 1 else task
+        if spec.get("allocator_cap") and goff:
+            # over-committed: the element gets fewer clients than its tasks ask for, ours runs in a later round (each of its clients on a
+            # client id of its own, which is not its global client index)
+            element = track.Parallel(members, clients=max(goff, spec["clients"]))
+        else:
+            element = track.Parallel(members) if len(members) > 1 else task
         wide = track.Task("wide", track.Operation("wide-op", "sim-op", params={"task": "wide"}, param_source="sim-source"),
                           iterations=1, clients=total_clients + abs(spec["via_allocator"]))
         schedule = [wide, element] if spec["via_allocator"] > 0 else [element, wide]
@@ -243,6 +248,7 @@ def run_task(spec, complete_at=None, cancel_at=None):
     for a in allocs:
         result["starts"].setdefault(a.task.client_index_in_task, result.get("launched"))
     result["param_calls"] = w.param_calls
+    result["client_ids"] = {a.task.client_index_in_task: a.client_id for a in allocs}
     result["task"] = task
     result["clients_closed"] = all(c.closed for c in w.created_clients)
     return result
